@@ -556,6 +556,7 @@ func (m *machine) deliverNode(c *core.Ctx, n int) {
 			}
 			m.live[ev.id] = true
 			m.event(c, fmt.Sprintf("up %d", ev.id), &discovery.Event{Type: discovery.NodeStartup, Key: ev.key, Value: ev.data}, true)
+			m.helpers(c, ev.id, "after up")
 		} else {
 			switch {
 			case !m.live[ev.id]:
@@ -566,9 +567,117 @@ func (m *machine) deliverNode(c *core.Ctx, n int) {
 				c.Branch("ev-down")
 			}
 			delete(m.live, ev.id)
+			m.helpers(c, ev.id, "before down") // what onNodeFailure is about to be told by LeadersOnNode
 			m.event(c, fmt.Sprintf("down %d", ev.id), &discovery.Event{Type: discovery.NodeFailure, Key: ev.key}, true)
 		}
 	}
+}
+
+// showOnNode renders a LeadersOnNode / ReplicasOnNode result canonically: databases by number, shard
+// ids ascending, databases with an empty list shown as such (the real helpers never produce one).
+func showOnNode(res map[string][]models.ShardID) string {
+	var ds []int
+	for name := range res {
+		ds = append(ds, dbID(name))
+	}
+	sort.Ints(ds)
+	var parts []string
+	for _, d := range ds {
+		ids := append([]models.ShardID(nil), res[dbName(d)]...)
+		sort.Slice(ids, func(i, j int) bool { return ids[i] < ids[j] })
+		ss := make([]string, len(ids))
+		for i, v := range ids {
+			ss[i] = strconv.Itoa(int(v))
+		}
+		parts = append(parts, fmt.Sprintf("%d:%s", d, strings.Join(ss, ",")))
+	}
+	if len(parts) == 0 {
+		return "-"
+	}
+	return strings.Join(parts, " ")
+}
+
+// helpers: the models.StorageState helpers the node handlers are written with, called on the manager's
+// real state (any number of databases) — LeadersOnNode(id), ReplicasOnNode(id) — compared with the
+// model (ops `leaders` / `replicas`) and judged against their meaning recomputed entry by entry from
+// the maps (each database's list is read AFTER the whole result was built: lists sharing memory show
+// up here); then the broker-side reading of the state (`qtargets`): every online shard's leader must
+// be a key of the live nodes (GetQueryableReplicas reads liveNodes[shardState.Leader]).
+func (m *machine) helpers(c *core.Ctx, id int, when string) {
+	st := m.mgr.GetStorageState()
+	var leaders, replicas map[string][]models.ShardID
+	c.Guard(fmt.Sprintf("leaders %d", id), func() string {
+		leaders = st.LeadersOnNode(models.NodeID(id))
+		return showOnNode(leaders)
+	})
+	c.Guard(fmt.Sprintf("replicas %d", id), func() string {
+		replicas = st.ReplicasOnNode(models.NodeID(id))
+		return showOnNode(replicas)
+	})
+	wantL, wantR := map[string][]models.ShardID{}, map[string][]models.ShardID{}
+	for name, ss := range st.ShardStates {
+		for sid, s := range ss {
+			if s.Leader == models.NodeID(id) {
+				wantL[name] = append(wantL[name], sid)
+			}
+		}
+	}
+	for name, a := range st.ShardAssignments {
+		if a == nil {
+			continue
+		}
+		for sid, rp := range a.Shards {
+			if rp != nil && rp.Contain(models.NodeID(id)) {
+				wantR[name] = append(wantR[name], sid)
+			}
+		}
+	}
+	if g, w := showOnNode(leaders), showOnNode(wantL); g != w {
+		c.Fail("leaders-on-node-wrong", fmt.Sprintf("%s %d: LeadersOnNode(%d) = %s but the shard states say %s", when, id, id, g, w))
+	}
+	if g, w := showOnNode(replicas), showOnNode(wantR); g != w {
+		c.Fail("replicas-on-node-wrong", fmt.Sprintf("%s %d: ReplicasOnNode(%d) = %s but the assignments say %s", when, id, id, g, w))
+	}
+	if len(wantL) >= 2 {
+		c.Branch("helpers-leader-of-shards-in-several-databases")
+	}
+	if len(wantR) >= 2 {
+		c.Branch("helpers-replica-in-several-databases")
+	}
+	// the consumer's reading, for the smallest reported database
+	best := -1
+	for name := range st.ShardStates {
+		if d := dbID(name); best < 0 || d < best {
+			best = d
+		}
+	}
+	if best < 0 {
+		return
+	}
+	ss := st.ShardStates[dbName(best)]
+	var ids []int
+	for sid := range ss {
+		ids = append(ids, int(sid))
+	}
+	sort.Ints(ids)
+	var parts []string
+	for _, sid := range ids {
+		s := ss[models.ShardID(sid)]
+		if s.State != models.OnlineShard {
+			continue
+		}
+		if _, ok := st.LiveNodes[s.Leader]; ok {
+			parts = append(parts, fmt.Sprintf("%d>%d", sid, int(s.Leader)))
+		} else {
+			parts = append(parts, fmt.Sprintf("%d>?", sid))
+			c.Fail("consumer-leader-not-in-live-nodes", fmt.Sprintf("%s %d: %s shard %d is online with leader %d, which is not a key of LiveNodes (a query would be sent to the zero node)", when, id, dbName(best), sid, s.Leader))
+		}
+	}
+	out := strings.Join(parts, " ")
+	if out == "" {
+		out = "-"
+	}
+	c.Op(fmt.Sprintf("qtargets %d", best), out)
 }
 
 // registered: the storage nodes whose registration key exists right now.
@@ -891,6 +1000,15 @@ var scripts = [][]evStep{
 		{"delivernode", 0, 0, 0, nil}, {"drop", 1, 0, 0, nil}, {"dup", 1, 0, 0, nil}, {"down", 1, 0, 0, nil}, {"down", 9, 0, 0, nil}, {"up", 2, 0, 0, nil}, {"up", 2, 0, 0, nil},
 		{"getfail", 0, 0, 0, nil}, {"cfg", 0, 1, 0, nil}, {"statefail", 0, 0, 0, nil}, {"down", 2, 0, 0, nil}, {"up", 3, 0, 0, nil},
 		{kind: "failover", burst: []evStep{{"down", 3, 0, 0, nil}}}, {"up", 1, 0, 0, nil}, {"cfg", 0, 1, 0, nil}, {"drop", 2, 0, 0, nil}, {"down", 1, 0, 0, nil}},
+	// 14: take-overs in which the repository's keys are handed to the new master in SHUFFLED orders (a != 0 is the
+	// permutation seed): assignments before the nodes that host them, nodes between the databases, after all nodes
+	// died, with a database whose creation had failed (its config replay creates it; the payload comes last), node 1
+	// leading shards of three databases when it fails afterwards
+	{{"up", 1, 0, 0, nil}, {"up", 2, 0, 0, nil}, {"up", 3, 0, 0, nil}, {"cfg", 0, 4, 2, nil}, {"cfg", 1, 3, 1, nil}, {"cfg", 2, 2, 3, nil},
+		{kind: "failover", a: 1}, {"down", 1, 0, 0, nil}, {kind: "failover", a: 2, burst: []evStep{{"down", 2, 0, 0, nil}}}, {"up", 1, 0, 0, nil}, {"cfg", 0, 2, 0, nil},
+		{kind: "failover", a: 3}, {"down", 1, 0, 0, nil}, {"up", 2, 0, 0, nil}, {kind: "failover", a: 4, burst: []evStep{{"down", 1, 0, 0, nil}, {"down", 2, 0, 0, nil}, {"down", 3, 0, 0, nil}}},
+		{"up", 2, 0, 0, nil}, {kind: "failover", a: 5}, {"drop", 1, 0, 0, nil}, {"putfail", 1, 0, 0, nil}, {"cfg", 1, 3, 2, nil}, {"up", 1, 0, 0, nil},
+		{kind: "failover", a: 6}, {"up", 3, 0, 0, nil}, {kind: "failover", a: 7}, {"down", 2, 0, 0, nil}, {kind: "failover", a: 8}, {kind: "failover", a: 9}, {"down", 1, 0, 0, nil}},
 }
 
 func machineCase(c *core.Ctx, r *rand.Rand) {
@@ -1013,7 +1131,11 @@ func machineCase(c *core.Ctx, r *rand.Rand) {
 			if readFaults && r.Intn(2) == 0 {
 				sil = append(sil, evStep{"getfail", 0, 0, 0, nil})
 			}
-			evs = append(evs, evStep{kind: "failover", burst: sil})
+			fo := evStep{kind: "failover", burst: sil}
+			if r.Intn(2) == 0 { // the keys are replayed in a shuffled order instead of Start's
+				fo.a = 1 + r.Intn(1<<20)
+			}
+			evs = append(evs, fo)
 			pend = map[int]int{}
 			nodePend = 0
 			continue
@@ -1331,7 +1453,7 @@ func machineRun(c *core.Ctx, _ *rand.Rand, evs []evStep) {
 			m.deliverNode(c, -1) // the node watch catches up before the burst
 			m.burst(c, e.burst)
 		case "failover":
-			m.failover(c, e.burst)
+			m.failover(c, e.burst, e.a)
 		case "badcfg": // a config event the handler must reject: invalid JSON, empty database name, empty value
 			var val []byte
 			switch e.a % 3 {
@@ -1631,7 +1753,7 @@ func (d *recDiscovery) Discovery(init bool) error {
 // nodes, the database configs, the shard assignments and the limits, in this order, and emits
 // one event per key. Nothing of the old master's memory may survive: what the new master reports
 // is a function of the repository alone.
-func (m *machine) failover(c *core.Ctx, silent []evStep) {
+func (m *machine) failover(c *core.Ctx, silent []evStep, shuffle int) {
 	repo := m.repo
 	c.Branch("ev-failover")
 	m.stopMaster()
@@ -1710,14 +1832,92 @@ func (m *machine) failover(c *core.Ctx, silent []evStep) {
 	rf := &recFactory{Factory: discovery.NewFactory(repo), m: m}
 	m.fct = master.NewStateMachineFactory(ctx, rf, m.mgr)
 	var startErr error
-	func() {
-		defer func() {
-			if r := recover(); r != nil {
-				startErr = fmt.Errorf("panic: %v", r)
+	if shuffle != 0 {
+		// ANY ORDER: the new master is handed one event per repository key (registrations, configs,
+		// persisted assignments) in a permutation fixed by `shuffle` — e.g. assignments before the
+		// nodes that host them — instead of the order StateMachineFactory.Start lists them in; an
+		// assignment a replayed config event writes afterwards is delivered last (as its watch would)
+		c.Branch("failover-keys-replayed-in-shuffled-order")
+		m.fct = nil
+		type kind struct {
+			prefix string
+			typ    discovery.EventType
+		}
+		var all []recEvent
+		typ := map[string]discovery.EventType{}
+		for _, k := range []kind{{constants.StorageLiveNodesPath, discovery.NodeStartup}, {constants.DatabaseConfigPath, discovery.DatabaseConfigChanged},
+			{constants.ShardAssignmentPath, discovery.ShardAssignmentChanged}} {
+			typ[k.prefix] = k.typ
+			snap := repo.snapshot(k.prefix)
+			var keys []string
+			for key := range snap {
+				keys = append(keys, key)
 			}
+			sort.Strings(keys)
+			for _, key := range keys {
+				all = append(all, recEvent{k.prefix, key, []byte(snap[key])})
+			}
+		}
+		pr := rand.New(rand.NewSource(int64(shuffle)))
+		pr.Shuffle(len(all), func(i, j int) { all[i], all[j] = all[j], all[i] })
+		firstNode, firstAsg := -1, -1
+		for i, ev := range all {
+			if ev.prefix == constants.StorageLiveNodesPath && firstNode < 0 {
+				firstNode = i
+			}
+			if ev.prefix == constants.ShardAssignmentPath && firstAsg < 0 {
+				firstAsg = i
+			}
+		}
+		if firstAsg >= 0 && (firstNode < 0 || firstAsg < firstNode) {
+			c.Branch("failover-assignment-replayed-before-any-node")
+		}
+		fed := map[string]string{}
+		feed := func(ev recEvent) {
+			func() {
+				defer func() {
+					if r := recover(); r != nil {
+						startErr = fmt.Errorf("panic: %v", r)
+					}
+				}()
+				master.VerifProcessEvent(m.mgr, &discovery.Event{Type: typ[ev.prefix], Key: ev.key, Value: ev.value})
+			}()
+			if ev.prefix == constants.ShardAssignmentPath {
+				fed[ev.key] = string(ev.value)
+			}
+		}
+		for _, ev := range all {
+			feed(ev)
+		}
+		rf.phases = append(rf.phases, all)
+		var late []recEvent
+		snap := repo.snapshot(constants.ShardAssignmentPath)
+		var keys []string
+		for key := range snap {
+			keys = append(keys, key)
+		}
+		sort.Strings(keys)
+		for _, key := range keys {
+			if fed[key] != snap[key] {
+				ev := recEvent{constants.ShardAssignmentPath, key, []byte(snap[key])}
+				feed(ev)
+				late = append(late, ev)
+				c.Branch("failover-shuffled-late-assignment")
+			}
+		}
+		if len(late) > 0 {
+			rf.phases = append(rf.phases, late)
+		}
+	} else {
+		func() {
+			defer func() {
+				if r := recover(); r != nil {
+					startErr = fmt.Errorf("panic: %v", r)
+				}
+			}()
+			startErr = m.fct.Start()
 		}()
-		startErr = m.fct.Start()
-	}()
+	}
 	if startErr != nil {
 		c.Fail("failover-start-failed", startErr.Error())
 		c.Op("batch", "start-failed")
@@ -1750,9 +1950,13 @@ func (m *machine) failover(c *core.Ctx, silent []evStep) {
 				segs = append(segs, fmt.Sprintf("asg %d %s", d, showAsg(asg)))
 			}
 		}
-		segs = append(segs, fmt.Sprintf("dbcfg %d", sentinelDB))
+		if shuffle == 0 {
+			segs = append(segs, fmt.Sprintf("dbcfg %d", sentinelDB))
+		}
 	}
-	m.dbs[sentinelDB] = markerCfg()
+	if shuffle == 0 {
+		m.dbs[sentinelDB] = markerCfg()
+	}
 	op := "batch " + strings.Join(segs, " | ")
 	c.Op(op, m.dump())
 	// the read fault of the take-over: which replayed config it hit (if any)
